@@ -11,21 +11,21 @@ independent of the machine is *which* texts count as good — read off the answe
 namespace Goyang.Spec.Session
 open Goyang.Model Goyang.Model.Session
 
-/-- The batch run: load the texts, in order (all of them were built: they were accepted once). -/
-def loads (fs : List SrcFile) : List Op := fs.map fun f => .load f true
+/-- The batch run: offer the sources, in order. -/
+def loads (srcs : List Src) : List Op := srcs.map .load
 
 /-- The texts of a history whose `load` the caller saw accepted, in order. -/
-def acceptedTexts : List Op → List Out → List SrcFile
-  | .load f _ :: ops, .accepted :: outs => f :: acceptedTexts ops outs
+def acceptedTexts : List Op → List Out → List Src
+  | .load src :: ops, .accepted :: outs => src :: acceptedTexts ops outs
   | _ :: ops, _ :: outs => acceptedTexts ops outs
   | _, _ => []
 
 /-- The good texts of a history run on a fresh set. -/
-def goodTexts (plug : Registry → Plug) (opts : Opts) (h : List Op) : List SrcFile :=
+def goodTexts (plug : Registry → Plug) (opts : Opts) (h : List Op) : List Src :=
   acceptedTexts h (run plug opts h)
 
 /-- What the batch run of `texts` on a fresh set answers to its final `process`. -/
-def batch (plug : Registry → Plug) (opts : Opts) (texts : List SrcFile) : Option Out :=
+def batch (plug : Registry → Plug) (opts : Opts) (texts : List Src) : Option Out :=
   (run plug opts (loads texts ++ [.process])).getLast?
 
 /-- Two states that no later history of loads, processing runs and reads can tell apart. -/
